@@ -2790,6 +2790,24 @@ pub(crate) mod verif {
 			c.cltv_expiry_delta(),
 		)
 	}
+
+	/// Runs the private `sort_first_hop_channels` on `channels` with a `used_liquidities` map
+	/// holding one `CandidateHopId::Clear((scid, direction))` entry per `used` triple.
+	pub(crate) fn sort_first_hop_channels(
+		channels: &mut Vec<&ChannelDetails>, used: &[(u64, bool, u64)],
+		recommended_value_msat: u64, our_node_pubkey: &PublicKey,
+	) {
+		let mut used_liquidities: HashMap<CandidateHopId, u64> = new_hash_map();
+		for (scid, direction, amount_msat) in used.iter() {
+			used_liquidities.insert(CandidateHopId::Clear((*scid, *direction)), *amount_msat);
+		}
+		super::sort_first_hop_channels(
+			channels,
+			&used_liquidities,
+			recommended_value_msat,
+			our_node_pubkey,
+		)
+	}
 }
 
 /// The default `features` we assume for a node in a route, when no `features` are known about that
